@@ -63,6 +63,15 @@ def judge(node, step, tr):
                 ctx = same_cols_index_exists(tr, where)
                 if ctx:
                     fp += '|' + ctx
+            if dk == 'index-extra' and shape != 'rebuild':
+                # the index that should be gone is there: do the evolved
+                # models declare another index/constraint over the same
+                # columns (then find_index() may have picked that one and
+                # dropped it instead, C01-F02) or not (then nothing was
+                # dropped at all)?
+                if owner in ('fk-index', 'field.db_index') and \
+                        same_cols_meta_entry(tr.spec_after, where):
+                    fp += '|same-cols-meta-entry'
             if fp not in seen:
                 seen.add(fp)
                 out.append((fp, {'where': where}))
@@ -78,7 +87,34 @@ def judge(node, step, tr):
     return out
 
 
-def same_cols_index_exists(tr, where):
+def same_cols_meta_entry(spec, where):
+    """Does the model that owns table `where` declare a Meta index,
+    constraint or together-group over exactly the columns of the index
+    entry `where` names?"""
+    table, entry = where.split(' ', 1)
+    cols = [c for c, _d in eval(entry)[0]]
+    for label, m in S.iter_models(spec):
+        if S.table_name(label, m) != table:
+            continue
+        names = []
+        for c in cols:
+            fs = [f['name'] for f in m['fields']
+                  if f['type'] != 'M2M' and S.column_name(f) == c]
+            if not fs:
+                return False
+            names.append(fs[0])
+        meta = m['meta']
+        groups = [list(g) for g in (meta.get('unique_together') or [])] + \
+            [list(g) for g in (meta.get('index_together') or [])] + \
+            [[x.lstrip('-') for x in i['fields']]
+             for i in (meta.get('indexes') or [])] + \
+            [list(c['fields']) for c in (meta.get('constraints') or [])
+             if c.get('fields')]
+        return names in groups
+    return False
+
+
+def same_cols_index_exists(tr, where, at_least=1):
     """Root-cause context for a missing index: which kinds of constraint
     over the same column list does the evolved table already hold (as
     Django's introspection, which DatabaseState.rescan_tables uses, reports
@@ -89,6 +125,7 @@ def same_cols_index_exists(tr, where):
     cols = [c for c, _d in entry[0]]
     conn = connections['default']
     kinds = set()
+    n = 0
     try:
         with conn.cursor() as cur:
             cons = conn.introspection.get_constraints(cur, table)
@@ -96,6 +133,7 @@ def same_cols_index_exists(tr, where):
         return ''
     for name, info in cons.items():
         if list(info.get('columns') or []) == cols:
+            n += 1
             if info.get('primary_key'):
                 kinds.add('pk')
             elif info.get('check'):
@@ -106,7 +144,7 @@ def same_cols_index_exists(tr, where):
                 kinds.add('index')
             else:
                 kinds.add('other')
-    return 'same-cols-constraint-exists' if kinds else ''
+    return 'same-cols-constraint-exists' if kinds and n >= at_least else ''
 
 
 def hinted_targets(project, level, depth):
